@@ -583,7 +583,12 @@ def patch_future():
                 return orig(self, *a, **k)
             switch("F." + name)
             S.emit("F." + name, S.role(self, "f"), fstate(self))
-            return orig(self, *a, **k)
+            r = orig(self, *a, **k)
+            if name in ("cancelled", "running", "done"):
+                # a second scheduling point AFTER a state read: the caller is about to act on what it saw
+                # (check-then-act); another thread may get in between unless a lock really excludes it
+                switch("F." + name + ".after")
+            return r
 
         w.__name__ = name
         w._orig = orig
